@@ -436,7 +436,9 @@ def splice_item(item, contracts, unit_name, used, canaries):
                             depth += 1
                         elif ch in ")]}":
                             depth -= 1
-                    if depth <= 0:
+                    # the statement ends where the brackets balance on a line that closes a statement (a method chain
+                    # continued on the next line balances earlier: `x[i]` / `.f()` / `{ .. }`)
+                    if depth <= 0 and (lines[e].rstrip().endswith((";", "}")) or e + 1 >= len(lines) or not lines[e + 1].lstrip().startswith((".", "{"))):
                         break
                     e += 1
                 lines[e + 1:e + 1] = blk
